@@ -458,11 +458,11 @@ def normalize(img, scale_func=None, mode="all", error_on_divide_by_zero=True):
             "One or more the scale factors are 0.0 and thus these"
             "entries will be skipped during normalization."
         )
-        non_zero_denom = ~zero_denom
-        centered_pixels[non_zero_denom] = (
-            centered_pixels[non_zero_denom] / scale_factor[non_zero_denom]
-        )
-        return img.from_vector(centered_pixels)
+        # entries whose scale is zero are left unscaled (divided by one); this
+        # broadcasts for both the single scale of mode "all" and the
+        # per-channel column of scales
+        safe_scale = np.where(scale_factor == 0, 1.0, scale_factor)
+        return img.from_vector(centered_pixels / safe_scale)
     else:
         return img.from_vector(centered_pixels / scale_factor)
 
